@@ -89,6 +89,9 @@ type MboxSession struct {
 	serverStop atomic.Bool
 
 	prevDone map[string]<-chan struct{}
+	// ServeEnded is set when the accept loop has ended because Accept
+	// returned an error that gRPC does not retry.
+	ServeEnded string
 	// Overlaps lists connections that were handed out while the previous
 	// connection of the same listener / dialer was still open.
 	Overlaps []string
@@ -165,6 +168,14 @@ func (m *MboxSession) StartServer() {
 			conn, err := m.Server.Accept()
 			if err != nil {
 				if m.ctx.Err() != nil || m.serverStop.Load() {
+					return
+				}
+				// grpc.Server.Serve retries only errors that say they
+				// are temporary; anything else ends Serve for good
+				if te, ok := err.(interface{ Temporary() bool }); !ok || !te.Temporary() {
+					m.mu.Lock()
+					m.ServeEnded = fmt.Sprintf("Accept returned an error that is not temporary (%T: %v): a gRPC server stops serving on it", err, err)
+					m.mu.Unlock()
 					return
 				}
 				select {
